@@ -28,10 +28,10 @@ const hdr08 = "From UV Require Import Base.Bytes Model.Driver Model.Cases08.\nOp
 const netT = 300 * time.Millisecond
 
 type callSpec struct {
-	ID    uint32
-	Index uint32
-	Path  int
-	Delay time.Duration
+	ID      uint32
+	Index   uint32
+	Path    int
+	Delay   time.Duration
 	NoReply bool
 }
 
@@ -305,7 +305,11 @@ func runNetRace(o Opts) error {
 		go func() { defer wg.Done(); u.GetDevices() }()
 		go func() {
 			defer wg.Done()
-			_, fails := listenSession(lport, [][]byte{farmReply(append([]byte{0x17, 0x20, 0, 0, 1, 2, 3, 4}, make([]byte, 56)...))}, 1)
+			evs := [][]byte{}
+			for i := 0; i < 8; i++ { // a burst of distinct events: decoding and delivery overlap with the next reads
+				evs = append(evs, farmReply(append([]byte{0x17, 0x20, 0, 0, 1, 2, 3, byte(4 + i), byte(i + 1)}, make([]byte, 55)...)))
+			}
+			_, fails := listenSession(lport, evs, 1, true)
 			_ = fails
 		}()
 		wg.Wait()
